@@ -3,10 +3,11 @@
    extracted datatypes.  Run from /verif/extract:
      coqc -Q ../coq K Extract.v *)
 From Coq Require Import Extraction ExtrOcamlBasic ExtrOcamlString.
-From K Require Import Str SetM.
+From K Require Import Str SetM Linq.
 Extraction Blacklist String List Char Bool.
 Set Extraction Optimize.
 Extraction "model.ml"
   str_eqb
   hash buf_empty buf_run
-  create_set set_add set_pop get_count is_empty set_run.
+  create_set set_add set_pop get_count is_empty set_run
+  encode decode strip linit lstep lrun drain drain_all.
